@@ -52,7 +52,7 @@ inductive Val
 abbrev Vals := List (String × Val)
 abbrev JidNorm := String → Option String
 
-def isMulti (t : String) : Bool := t = "list-multi" || t = "jid-multi" || t = "text-multi"
+def isMulti (t : String) : Bool := t = "list-multi" || t = "jid-multi" || t = "text-multi" || t = "hidden"
 def isList (t : String) : Bool := t = "list-single" || t = "list-multi"
 def isJid (t : String) : Bool := t = "jid-single" || t = "jid-multi"
 def boolLex (v : String) : Bool := v = "true" || v = "false" || v = "0" || v = "1"
@@ -290,5 +290,87 @@ def canonForm (jn : JidNorm) (frm : Form) : Form :=
     instructions := accInstr "" (nonEmptyLines frm.instructions)
     typ := frm.typ
     fields := frm.fields.map (canonField jn) }
+
+/-! ### the form as an object with a history of calls (round E)
+
+`Submit` builds a fresh `Data` that *shares* the field array and the value map of the form it
+is called on, and the field loop of `Data.TokenReader` assigns the value to submit to its loop
+variable.  Whether that assignment reaches the shared array depends on how the loop reaches the
+field: by copy (`for _, f := range d.fields`, the code) or through the slot
+(`f := &d.fields[i]`).  The model carries that choice as `LoopMode`, so it can exhibit a
+reading call that changes the form (`byRef`); the `fhist` lines tie the real code to `byCopy`. -/
+
+inductive LoopMode
+  | byCopy
+  | byRef
+  deriving DecidableEq, Repr
+
+/-- the field array after the submit loop ran over it through the slots: every field that is
+written carries the value that was submitted; `Get` of a later field already sees the change -/
+def submitLoopRef (jn : JidNorm) (vals : Vals) : List Field → List Field → List Field
+  | done, [] => done
+  | done, f :: rest =>
+    match submittedField jn ⟨"", "", "submit", done ++ f :: rest⟩ vals f with
+    | some f' => submitLoopRef jn vals (done ++ [f']) rest
+    | none => submitLoopRef jn vals (done ++ [f]) rest
+
+def fieldsAfterLoop (m : LoopMode) (jn : JidNorm) (fields : List Field) (vals : Vals) : List Field :=
+  match m with
+  | .byCopy => fields
+  | .byRef => submitLoopRef jn vals [] fields
+
+/-- a `*form.Data` between calls: the form as built or decoded, and the value map -/
+structure Session where
+  frm : Form
+  vals : Vals
+  deriving DecidableEq, Repr
+
+/-- the calls of the exported API on one form -/
+inductive Op
+  | set (id : String) (v : Val)
+  | get (id : String)
+  | submit
+  | encode
+  deriving DecidableEq, Repr
+
+/-- the state of the form after one call (what the call returns is `set` / `get` / `submit` /
+`encodeForm` above) -/
+def stepS (m : LoopMode) (jn : JidNorm) (s : Session) : Op → Session
+  | .set id v => { s with vals := (set s.frm s.vals id v).2 }
+  | .get _ => s
+  | .submit => { s with frm := { s.frm with fields := fieldsAfterLoop m jn s.frm.fields s.vals } }
+  | .encode =>
+    if s.frm.typ = "submit" then
+      { s with frm := { s.frm with fields := fieldsAfterLoop m jn s.frm.fields s.vals } }
+    else s
+
+def history (m : LoopMode) (jn : JidNorm) (s : Session) (ops : List Op) : Session :=
+  ops.foldl (stepS m jn) s
+
+/-- what the `fhist` line observes: `Set` calls, `Get` of every variable, two `Submit`s, and then
+the form written again -/
+def afterUse (m : LoopMode) (jn : JidNorm) (frm : Form) (sets : List (String × Val)) : Node :=
+  let s := history m jn ⟨frm, []⟩
+    (sets.map (fun p => Op.set p.1 p.2) ++ frm.fields.map (fun f => Op.get f.var) ++ [.submit, .submit])
+  encodeForm jn s.frm []
+
+/-! ### the typed getters (`GetString`, `GetStrings`, `GetBool`, `GetJID`, `GetJIDs`) -/
+
+inductive Kind
+  | str | strs | bool | jid | jids
+  deriving DecidableEq, Repr
+
+def kindOf : Val → Kind
+  | .str _ => .str
+  | .strs _ => .strs
+  | .bool _ => .bool
+  | .jid _ => .jid
+  | .jids _ => .jids
+
+/-- `Get` followed by a type assertion; when either fails the zero value and `false` -/
+def getTyped (k : Kind) (jn : JidNorm) (f : Form) (vals : Vals) (id : String) : Option Val × Bool :=
+  match get jn f vals id with
+  | (some v, true) => if kindOf v = k then (some v, true) else (none, false)
+  | _ => (none, false)
 
 end XmppModel.Form
